@@ -232,7 +232,11 @@ func (c *Context) ExecutePackage(outDir string, p Package) error {
 	klog.V(5).Infof("Processing package %q, disk location %q", p.Name(), path)
 	// Filter out any types the *package* doesn't care about.
 	packageContext := c.filteredBy(p.Filter)
-	os.MkdirAll(path, 0755)
+	if !c.Verify {
+		// Verify-only mode must not touch the disk, not even to create the
+		// output directory: a missing directory is reported per file below.
+		os.MkdirAll(path, 0755)
+	}
 	files := map[string]*File{}
 	for _, g := range p.Generators(packageContext) {
 		// Filter out types the *generator* doesn't care about.
